@@ -142,3 +142,51 @@ def CANDIDATES(func: str):
     else:
         for sel in itertools.product(range(2), range(len(OUTS)), range(len(MOD_IDS)), range(4), range(2), range(3)):
             yield [list(sel) + [0] * 6]
+
+
+PLACEHOLDERS = ["ext.lib.alpha", "ext.lib.zeta", "ext.lib.mid.Middle", "ext.lib.Beta", "ext.other.Gamma", "ext.lib._hid.Delta"]
+
+
+def placeholders(sel: List[int]) -> bool:
+    """Placeholder stubs for classes of other libraries (1-4 out of 6, incl. a sub-module whose name sorts between two
+    classes of its parent module): every path is opened for writing once, every referenced class is declared in the
+    file its import names, under the announced package.
+
+    pre: len(sel) == SEL_LEN and fixed(sel)
+    post: _
+    """
+    try:
+        cur = Cur()
+        convert = rd(sel, cur, 2) == 1
+        chosen = [q for q in PLACEHOLDERS if rd(sel, cur, 2) == 1]
+        if not (1 <= len(chosen) <= 4):
+            raise OutOfRange
+    except OutOfRange:
+        return True
+    api = mk_api()
+    m = mk_module(api, "pkg/m")
+    mk_function(api, m, "f", params=[{"name": f"p{i}", "type_": NamedType(q.split(".")[-1], q)} for i, q in enumerate(chosen)],
+                results=[("result_1", INT)])
+    fs, _, _ = generate(api, convert)
+    note("oracle")
+    labels = []
+    with untraced():
+        per_path: dict[str, list] = {}
+        for path, mode, _text in fs.writes:
+            per_path.setdefault(path, []).append(mode)
+        for path, modes in per_path.items():
+            if modes.count("w") != 1 or modes[0] != "w":
+                labels.append("path-written-more-than-once")
+        declared = {}
+        for path, text in fs.files.items():
+            try:
+                f = parse(text)
+            except StubSyntaxError as e:
+                labels.append(f"stub-syntax:{e.msg.split(';')[0]}")
+                continue
+            declared.setdefault(f.pymodule, set()).update(d.pyname for d in f.decls)
+        for q in chosen:
+            mod, name = q.rsplit(".", 1)
+            if name not in declared.get(mod, set()):
+                labels.append("placeholder-class-missing-from-its-stub")
+    return judge(labels)
